@@ -685,6 +685,11 @@ def suite_long_lines(ctx, n=None):
                     body = body[:max(ln - len(v), 0)] + v
                 lines.append(body + rnd.choice([b"\n", b"\r\n"]))
         stream = b"".join(lines)
+        # a third of the streams end without a newline — in the middle of a short line, of a line that is already overlong, or right behind an
+        # overlong line's newline: the rest is not a line, and the end of the stream delivers nothing
+        eof = rnd.random() < 0.34
+        if eof:
+            stream += bytes(rnd.choice(b"ABCDEFxyz0123 ") for _ in range(rnd.choice([0, 3, L - 1, L, L + 5, 2 * L + 1])))
         mode = rnd.choice(["one", "all", "rand", "limit"])
         if mode == "limit":
             cuts = sorted(set(c for c in [L, L + 1, L + 2] + [stream.find(b"\n", j) + d for j in range(0, len(stream), 17) for d in (0, 1)] if 0 < c < len(stream)))
@@ -697,12 +702,15 @@ def suite_long_lines(ctx, n=None):
             reads = c12_segment(rnd, stream, mode)
         sim = clientsim.Sim(kind, cb_mode="ok")
         sim.force_limit = L
-        sim = c12_session(kind, lines, reads, "ok", sim=sim)
+        sim = c12_session(kind, lines, reads, "ok", eof=eof, sim=sim)
         got = list(getattr(sim, "decoder_inputs", []))
-        s.add(f"reader.linesLim {L} {','.join(harness.hx(r) for r in reads)}", None, f"{kind}-L{L}-{mode}", meta=("lines", "\x00".join(got)))
+        s.add(f"reader.linesLim {L} {','.join(harness.hx(r) for r in reads)}", None, f"{kind}-L{L}-{mode}{'-eof' if eof else ''}", meta=("lines", "\x00".join(got)))
+        if eof and "status DISCONNECTED" not in sim.events:
+            hits.append({"kind": "long-lines-" + kind, "reads": [r.hex() for r in reads], "packets": [p.hex() for p in lines], "cb": "ok", "limit": L, "eof": True,
+                         "what": f"{kind}, line limit {L}: the stream ended (reads {[len(r) for r in reads][:12]}) and the client did not report DISCONNECTED"})
         exp = [l.decode("utf-8", errors="replace").strip() for l in lines if len(l) - 1 <= L]
         if got != exp:
-            hits.append({"kind": "long-lines-" + kind, "reads": [r.hex() for r in reads], "packets": [p.hex() for p in lines], "cb": "ok", "limit": L,
+            hits.append({"kind": "long-lines-" + kind, "reads": [r.hex() for r in reads], "packets": [p.hex() for p in lines], "cb": "ok", "limit": L, "eof": eof,
                          "what": f"{kind}, line limit {L}: the decoder was handed {len(got)} lines, the stream has {len(exp)} newline-terminated lines of at most {L} bytes "
                                  f"(line lengths {[len(l) - 1 for l in lines]}, reads {[len(r) for r in reads][:12]})"})
     got_lines = common.lean_run(s.reqs) if s.reqs else []
